@@ -40,6 +40,7 @@ pub struct SymbolMap {
     name_to_class: HashMap<EcoString, RecordId>,
     name_to_def: HashMap<EcoString, RecordId>,
     name_to_multiclass: HashMap<EcoString, MulticlassId>,
+    name_to_defset: HashMap<EcoString, DefsetId>,
     file_to_symbol_list: HashMap<FileId, Vec<SymbolId>>,
     pos_to_symbol_map: HashMap<FileId, IntervalMap<TextSize, SymbolId>>,
 }
@@ -54,6 +55,10 @@ impl SymbolMap {
         self.record_list
             .get_mut(record_id)
             .expect("invalid record id")
+    }
+
+    pub fn find_defset(&self, name: &EcoString) -> Option<DefsetId> {
+        self.name_to_defset.get(name).copied()
     }
 
     pub fn find_class(&self, name: &EcoString) -> Option<RecordId> {
@@ -282,6 +287,12 @@ impl SymbolMap {
             .push(id.into());
         self.add_to_pos_to_symbol_map(define_loc, id);
         id
+    }
+
+    /// makes the defset's name visible as a value; called once its body has been indexed
+    pub fn bind_defset_name(&mut self, defset_id: DefsetId) {
+        let name = self.defset(defset_id).name.clone();
+        self.name_to_defset.insert(name, defset_id);
     }
 
     pub fn add_multiclass(&mut self, multiclass: Multiclass) -> MulticlassId {
